@@ -101,6 +101,16 @@ def try_op(cfg, op, counters, what):
             dups = [d for k, d in dec.all_problems() if 'dup-ident' in k]
             if dups:
                 late = 'image:dup-ident@%s' % dups[0][:80]
+            elif dec.pvd is not None:
+                for dpath, di in dec.pvd.dirs.items():
+                    if dpath.count('/') != 1 or dpath == '/D0':
+                        continue
+                    for r in di.records:
+                        if r.flags & 2 and r.ident not in (b'\x00', b'\x01'):
+                            rule = legal_iso_dir(r.ident.decode('latin-1'), cfg.level, cfg.xa)
+                            counters['derived_idents_checked'] = counters.get('derived_idents_checked', 0) + 1
+                            if rule is not True and rule != 'record-fit':
+                                late = 'image:derived-ident:%s@%s/%s' % (rule, dpath, r.ident[:20])
     s.close()
     counters['candidates_tried'] = counters.get('candidates_tried', 0) + 1
     return out, late
@@ -160,10 +170,13 @@ def check_candidates(rng, counters, classes, n=40):
                 p_ += '/D%d' % d
                 pre.append({'op': 'add_directory', 'iso_path': p_, 'rr_name': 'd%d' % d})
             n_ = rng.choice([2, 3, 4, 5])
+            # (also names that are as long as a directory identifier of the level may be: the
+            # identifiers the library derives for the relocation directory must still be legal)
+            same = rng.choice(['SAME', 'SAMENAME', 'SAMENAM'] if level == 1 else ['SAME', 'SAMENAME', 'S' * 207, 'S' * 205])
             for k in range(n_):
                 par = p_ + '/P%d' % k
                 pre.append({'op': 'add_directory', 'iso_path': par, 'rr_name': 'p%d' % k})
-                pre.append({'op': 'add_directory', 'iso_path': par + '/SAME', 'rr_name': 'same'})
+                pre.append({'op': 'add_directory', 'iso_path': par + '/' + same, 'rr_name': 'same'})
             op = pre.pop()
             op['_pre'] = pre
             ident = op['iso_path']
@@ -260,6 +273,20 @@ def check_candidates(rng, counters, classes, n=40):
             op = {'op': rng.choice(['add_fp', 'add_directory']), 'joliet_path': '/' + ident}
             if op['op'] == 'add_fp':
                 op.update({'cid': 1, 'length': 3})
+            if rng.random() < 0.12:
+                # spellings of the root itself: a new entry there would have an empty name
+                ident = rng.choice(['', '/', '.', './', 'sub/..', 'sub/../'])
+                exp = 'empty'
+                op = {'op': rng.choice(['add_fp', 'add_directory', 'add_directory', 'add_hard_link', 'add_symlink']), 'joliet_path': '/' + ident,
+                      '_pre': [{'op': 'add_directory', 'joliet_path': '/sub'}]}
+                if op['op'] == 'add_fp':
+                    op.update({'cid': 1, 'length': 3})
+                elif op['op'] == 'add_hard_link':
+                    op = {'op': 'add_hard_link', 'old': ('joliet', '/old'), 'new': ('joliet', '/' + ident),
+                          '_pre': op['_pre'] + [{'op': 'add_fp', 'cid': 1, 'length': 3, 'joliet_path': '/old'}]}
+                elif op['op'] == 'add_symlink':
+                    cfg = Cfg(level=level, joliet=3, udf=True)
+                    op = {'op': 'add_symlink', 'udf_symlink_path': '/s', 'udf_target': 't', 'joliet_path': '/' + ident, '_pre': op['_pre']}
         elif kind == 'udf':
             cfg = Cfg(level=level, udf=True)
             n_ = rng.choice([1, 100, 126, 127, 128, 200, 253, 254, 255, 256, 300])
@@ -280,6 +307,12 @@ def check_candidates(rng, counters, classes, n=40):
             elif op['op'] == 'add_hard_link':
                 op = {'op': 'add_hard_link', 'old': ('udf', '/old'), 'new': ('udf', '/' + ident),
                       '_pre': [{'op': 'add_fp', 'cid': 1, 'length': 3, 'udf_path': '/old'}]}
+            if rng.random() < 0.08:
+                ident = rng.choice(['', '/', '.', 'sub/..'])
+                exp = 'empty'
+                op = {'op': rng.choice(['add_fp', 'add_directory']), 'udf_path': '/' + ident, '_pre': [{'op': 'add_directory', 'udf_path': '/sub'}]}
+                if op['op'] == 'add_fp':
+                    op.update({'cid': 1, 'length': 3})
         elif kind == 'rr':
             cfg = Cfg(level=level, rr=rng.choice(['1.09', '1.10', '1.12']))
             n_ = rng.choice([1, 200, 250, 255, 1000, 1900, 2000, 2100, 2500])
